@@ -160,8 +160,9 @@ class C05(Oracle):
     pid = "C05"
 
     def on_scenario(self, ctx):
-        self.edges = {}      # key -> list of (key2, gain)
-        self.selfloop_gain = False
+        self.succ = {}          # key -> set of successor keys (state-changing edges)
+        self.pay_root = {}      # host row -> list of (key, key2): edges on which the host's value is due
+        self.pay_disc = {}      # host row -> list of (key, key2): edges on which its discovery value is due
 
     def on_transition(self, ctx, tr):
         m, ms, ms2, mact = ctx.model, tr.ms, tr.ms2, tr.mact
@@ -171,8 +172,10 @@ class C05(Oracle):
             for i, a in enumerate(m.addrs):
                 if ms2[i][3] >= ROOT and ms[i][3] < ROOT:
                     gained += m.value[a]
+                    self.pay_root.setdefault(i, []).append((tr.key, tr.key2))
                 if ms2[i][2] and not ms[i][2]:
                     gained += m.dvalue[a]
+                    self.pay_disc.setdefault(i, []).append((tr.key, tr.key2))
         want = gained - cost
         if gained != 0.0 or not tr.info["success"]:
             ctx.nontrivial["C05"] += 1
@@ -180,62 +183,40 @@ class C05(Oracle):
             ctx.report("C05", "reward_is_not_value_gained_minus_cost", tr,
                        detail={"reward": float(tr.reward), "expected": want, "value_gained": gained,
                                "cost": cost, "success": bool(tr.info["success"])})
-        g = float(tr.reward) + float(cost)
-        if tr.key2 == tr.key:
-            if not _close(g, 0.0) and not self.selfloop_gain:
-                self.selfloop_gain = True   # already reported above as a reward mismatch
-        else:
-            self.edges.setdefault(tr.key, []).append((tr.key2, g))
+        if tr.key2 != tr.key:
+            self.succ.setdefault(tr.key, set()).add(tr.key2)
 
     def on_done(self, ctx, seen, order):
-        """Path-level 'paid at most once': over ALL paths of the (acyclic) graph of state-changing
-        transitions, total value collected lies between the sum of the negative and the sum of the
-        positive host / discovery values (longest / shortest path by dynamic programming)."""
+        """Path-level 'paid at most once', over ALL paths of the state graph (cycles allowed): the
+        transition oracle above fixes WHEN a value is paid (root first obtained / host first
+        discovered on that edge), so a value is paid twice on some path iff two such edges for the same
+        host lie on one path, i.e. the tail of one is reachable from the head of another."""
         m = ctx.model
-        hi = sum(max(v, 0.0) for v in m.value.values()) + sum(max(v, 0.0) for v in m.dvalue.values())
-        lo = sum(min(v, 0.0) for v in m.value.values()) + sum(min(v, 0.0) for v in m.dvalue.values())
-        keys = list(seen.keys())
-        indeg = {k: 0 for k in keys}
-        for k, es in self.edges.items():
-            for k2, _ in es:
-                if k2 in indeg:
-                    indeg[k2] += 1
-        best = {k: None for k in keys}
-        worst = {k: None for k in keys}
-        root = keys[0]
-        best[root] = worst[root] = 0.0
-        stack = [k for k in keys if indeg[k] == 0]
-        done = 0
-        while stack:
-            k = stack.pop()
-            done += 1
-            for k2, g in self.edges.get(k, ()):
-                if k2 not in indeg:
+        for what, table, val in (("host value", self.pay_root, m.value), ("discovery value", self.pay_disc, m.dvalue)):
+            for i, edges in table.items():
+                a = m.addrs[i]
+                if val[a] == 0:
                     continue
-                if best[k] is not None:
-                    b = best[k] + g
-                    w = worst[k] + g
-                    if best[k2] is None or b > best[k2]:
-                        best[k2] = b
-                    if worst[k2] is None or w < worst[k2]:
-                        worst[k2] = w
-                indeg[k2] -= 1
-                if indeg[k2] == 0:
-                    stack.append(k2)
-        if done != len(keys):
-            ctx.stats[("C05", "path_dp_skipped_cyclic_graph")] += 1
-            return
-        ctx.stats[("C05", "path_dp_graphs")] += 1
-        mx = max(v for v in best.values() if v is not None)
-        mn = min(v for v in worst.values() if v is not None)
-        if mx > hi + 1e-6 or mn < lo - 1e-6:
-            bad = max(best, key=lambda k: -1e18 if best[k] is None else best[k]) if mx > hi + 1e-6 else \
-                min(worst, key=lambda k: 1e18 if worst[k] is None else worst[k])
-            ctx.report("C05", "some_value_paid_more_than_once_on_a_path", key=bad,
-                       detail={"max_total_value_over_paths": mx, "min_total_value_over_paths": mn,
-                               "sum_positive_values": hi, "sum_negative_values": lo,
-                               "note": "history reaches the end state of an offending path (BFS tree); "
-                                       "the over-paying path ends in the same state"})
+                ctx.stats[("C05", "paid_once_graph_checks")] += 1
+                tails = {}
+                for k, k2 in edges:
+                    tails.setdefault(k, k2)
+                # forward reachability from all heads
+                stack = list({k2 for _, k2 in edges})
+                reach = set(stack)
+                while stack:
+                    k = stack.pop()
+                    for k2 in self.succ.get(k, ()):
+                        if k2 not in reach:
+                            reach.add(k2)
+                            stack.append(k2)
+                again = [k for k in tails if k in reach]
+                if again:
+                    ctx.report("C05", "value_paid_more_than_once_on_a_path", key=again[0],
+                               detail={"host": str(a), "what": what, "value": val[a],
+                                       "note": "the history reaches a state in which the value has already been paid "
+                                               "once and from which it is paid again"})
+                    return
 
 
 # =============================================================================================== C06
@@ -373,6 +354,52 @@ class C08(Oracle):
                     bad = np.argwhere(rows != want)[:6].tolist()
                     ctx.report("C08", "initial_partial_observation_wrong", key=None,
                                detail={"cells(row,col)": bad})
+
+        self._sibling_probe(ctx)
+
+    def _sibling_probe(self, ctx):
+        """The initial observation must also be right when ANOTHER scenario of the same array shape has
+        been built in between (several environments normally coexist in a process): build a sibling
+        scenario (second subnet made public, host configurations rotated), then reset again."""
+        import copy
+        from nasim.envs import NASimEnv
+        from .spec import to_scenario
+        spec = ctx.spec
+        if "subnets" not in spec or len(spec["subnets"]) < 2:
+            return
+        sib = copy.deepcopy(spec)
+        sib["name"] = spec["name"] + "-sibling"
+        t = sib["topology"]
+        if t[0][2] == 1:
+            return
+        t[0][2] = t[2][0] = 1
+        srvs = list(sib["services"])
+        sib["firewall"][(0, 2)] = srvs
+        sib["firewall"][(2, 0)] = []
+        try:
+            sc2 = to_scenario(sib)
+            for fo in (False, True):
+                e2 = NASimEnv(sc2, fully_obs=fo, flat_actions=True, flat_obs=True)
+                e2.reset()
+        except Exception:
+            return
+        lay = ctx.layout
+        for env, fo in ((ctx.env, False), (ctx.env_fo, True)):
+            o, _ = env.reset()
+            st = env.current_state.tensor
+            rows = np.asarray(o).reshape(self.n + 1, lay.width)[: self.n]
+            if fo:
+                want = st
+            else:
+                want = np.zeros_like(st)
+                for i in range(self.n):
+                    if st[i, lay.reachable] == 1:
+                        for g in ALWAYS:
+                            want[i, self.gcols[g]] = st[i, self.gcols[g]]
+            ctx.stats[("C08", "initial_observation_after_sibling_scenario")] += 1
+            if not np.array_equal(rows, want):
+                ctx.report("C08", "initial_observation_wrong_after_another_scenario_was_built", key=None,
+                           detail={"fully_obs": fo, "cells(row,col)": np.argwhere(rows != want)[:6].tolist()})
 
     def _aux(self, ctx, tr, obs_t, mode):
         aux = obs_t[self.n]
